@@ -135,6 +135,17 @@ CLAIMED.update({
             CURSOR_NOTE, "DESIGN.md section 5 C22"),
 })
 
+CLAIMED.update({
+    "C15": ("fault_enumeration",
+            "property-based testing (rapid) with exhaustive crash-point enumeration inside each generated history: a verif-tagged hook reports every filesystem mutation; at each one the harness recovers the crash image and the power-loss images of a durability model with a fresh engine and checks acknowledged rows, unknown rows and duplicates",
+            "Within each generated history (ingest/flush, failed flush, merge, failed merge incl. publish-then-fail Close) EVERY mutation boundary reported by the hook is a crash point, each with the as-is image and all ordered prefixes of pending directory operations over fsync-durable content. Histories are sampled (40 quick / 600 thorough). Two known findings (merge window, unsynced removes) are re-observed, counted and excluded by signature.",
+            "The durability model is a model, not a filesystem (data durable as of the file's last fsync, directory entries as of the last directory fsync, pending directory operations persist as ordered prefixes); granularity is the hook's events.", "DESIGN.md section 5 C15"),
+    "C16": ("exploration",
+            "property-based testing (rapid): model-based state machine over FileSystemDataStore (CreateFile with hook-forced name collisions, chunked Write, Close, Abort, TombstoneFile, OpenFile, scan, parallel CreateFile bursts); the directory is compared with the model after every operation",
+            "500 (quick) / 20 000 (thorough) operation sequences over up to 4 open writers; about half force a collision with a live file; a quarter also tombstone an open writer's pointer ('any sequence').",
+            "The pointer is the path: a TombstoneFile through an older copy of a pointer acts on whatever file lives at that path; forced names are not re-used while a tombstoned writer is still open (that combination is the contract-violating finding-8 scenario described in DESIGN.md).", "DESIGN.md section 5 C16"),
+})
+
 PENDING_REASON ="check not yet built in this revision of /verif (no technical obstacle; see DESIGN.md section 5)"
 
 def main():
